@@ -19,7 +19,7 @@ from .terms import Lin, Term, c, is_c, is_top, top
 BUILTINS = {
     "int", "str", "len", "round", "float", "divmod", "sum", "map", "filter", "list", "dict", "set", "tuple",
     "isinstance", "hasattr", "type", "hash", "open", "bool", "bytes", "sorted", "min", "max", "abs", "any", "all",
-    "range", "print", "object", "super", "getattr", "repr", "enumerate", "zip", "frozenset", "bytearray", "hex", "slice",
+    "range", "print", "object", "super", "getattr", "repr", "enumerate", "zip", "frozenset", "bytearray", "hex", "slice", "format", "reversed", "next", "iter", "chr", "ord", "pow",
     "ValueError", "KeyError", "RuntimeError", "IndexError", "TypeError", "Exception", "NotImplementedError",
     "OSError", "BaseException", "UnicodeDecodeError", "LookupError", "AttributeError", "OverflowError",
     "ConnectionError", "StopIteration", "AssertionError", "ArithmeticError", "ZeroDivisionError", "FileNotFoundError",
@@ -276,6 +276,57 @@ def call_ext(I: Any, name: str, args: List[Term], kwargs: Dict[str, Term], st: A
         ast.copy_location(lam, node)
         ast.fix_missing_locations(lam)
         return ("lambda", lam, None, ctx.fi, {})
+    if name == "builtins.format" and 1 <= len(args) <= 2 and not kwargs:
+        spec = args[1] if len(args) > 1 else c("")
+        if is_c(spec) and isinstance(spec[1], str):
+            return merge_strftime(format_value(I, args[0], spec[1], st, ctx, node))
+        return top("format() with a non-constant spec")
+    if name in ("operator.add", "operator.sub", "operator.mul", "operator.floordiv", "operator.mod", "operator.and_", "operator.or_", "operator.xor", "operator.lshift", "operator.rshift") and len(args) == 2 and not kwargs:
+        opn = {"add": ast.Add, "sub": ast.Sub, "mul": ast.Mult, "floordiv": ast.FloorDiv, "mod": ast.Mod, "and_": ast.BitAnd, "or_": ast.BitOr, "xor": ast.BitXor, "lshift": ast.LShift, "rshift": ast.RShift}[name.split(".")[1]]
+        return binop(I, opn(), args[0], args[1], st, ctx, node)
+    if name in ("operator.eq", "operator.ne", "operator.lt", "operator.le", "operator.gt", "operator.ge") and len(args) == 2 and not kwargs:
+        opc = {"eq": ast.Eq, "ne": ast.NotEq, "lt": ast.Lt, "le": ast.LtE, "gt": ast.Gt, "ge": ast.GtE}[name.split(".")[1]]
+        return I.compare(opc(), args[0], args[1], st, ctx, node)
+    if name == "functools.reduce" and 2 <= len(args) <= 3 and not kwargs:
+        items = I.iter_items(args[1], st, ctx, node)
+        if items is not None and (items or len(args) == 3) and len(items) <= 64:
+            acc = args[2] if len(args) == 3 else items[0]
+            for it in (items if len(args) == 3 else items[1:]):
+                acc = I.call(args[0], [acc, it], {}, st, ctx, node)
+            return acc
+        return I.external_call(name, args, kwargs, st, ctx, node, awaited, opaque=True)
+    if name == "builtins.reversed" and len(args) == 1 and not kwargs:
+        items = I.iter_items(args[0], st, ctx, node)
+        if items is not None:
+            from .interp import HeapObj
+            return st.alloc(HeapObj("list", None, {}, list(reversed(items))))
+        if _textlike(args[0]):
+            r = reverse_value(I, args[0], st, ctx, node)
+            if not is_top(r):
+                return ("revbytes", r)
+        return I.external_call(name, args, kwargs, st, ctx, node, awaited, opaque=True)
+    if name == "builtins.bytes" and len(args) == 1 and not kwargs:
+        a0 = args[0]
+        if isinstance(a0, tuple) and a0 and a0[0] == "revbytes":
+            return a0[1]          # bytes(reversed(b)) == b[::-1]
+        if is_c(a0) and isinstance(a0[1], int) and not isinstance(a0[1], bool) and 0 <= a0[1] <= 4096:
+            return ("seq", "raw", (("L", "00" * a0[1]),) if a0[1] else ())
+        s0 = T.to_seq(a0) if _textlike(a0) else None
+        if s0 is not None and s0[1] in ("raw", "b"):
+            return a0             # bytes(b) is b
+    if name == "struct.Struct" and len(args) == 1 and not kwargs and is_c(args[0]):
+        return ("structobj", args[0])
+    if name == "builtins.dict.fromkeys" and 1 <= len(args) <= 2 and not kwargs:
+        items = I.iter_items(args[0], st, ctx, node)
+        if items is not None:
+            from .interp import HeapObj
+            val = args[1] if len(args) > 1 else c(None)
+            pairs: List[Tuple[Term, Term]] = []
+            for it in items:
+                k_ = I.canon_cmp_operand(it, st)
+                if not any(k2 == k_ for k2, _ in pairs):
+                    pairs.append((k_, val))
+            return st.alloc(HeapObj("dict", None, {}, pairs))
     if name == "builtins.slice" and 1 <= len(args) <= 3 and not kwargs:
         a3 = [c(None)] * 3
         if len(args) == 1:
@@ -322,6 +373,10 @@ def call_ext(I: Any, name: str, args: List[Term], kwargs: Dict[str, Term], st: A
         if name == "time.strftime":
             return text_of(r)
         return r
+    if name == "datetime.time" and args and not any(k in kwargs for k in ("hour", "minute", "second", "microsecond")[:len(args)]) and len(args) <= 4:
+        # positional and keyword spelling of the same constructor call: one canonical (keyword) form
+        kwargs = {**dict(zip(("hour", "minute", "second", "microsecond"), args)), **kwargs}
+        args = []
     if name in PURE_APPS:
         if name in MAY_RAISE_APPS:
             st.may_raise(MAY_RAISE_APPS[name], ("invalid", name, tuple(args) + kwitems(kwargs)), where)
@@ -586,6 +641,16 @@ def arith(op: str, a: Term, b: Term) -> Term:
             return Lin.of(b).scale(a[1]).term()
         if is_c(b) and isinstance(b[1], (int, float)):
             return Lin.of(a).scale(b[1]).term()
+    # digit extraction with positive constant moduli, valid for every integer x (floor semantics):
+    #   (x // a) // b == x // (a*b);   (x % (a*b)) // a == (x // a) % b;   (x % (a*b)) % a == x % a
+    if op in ("floordiv", "mod") and is_c(b) and isinstance(b[1], int) and not isinstance(b[1], bool) and b[1] > 0 and a[0] == "app" and len(a) == 4 and is_c(a[3]) and isinstance(a[3][1], int) and a[3][1] > 0 and is_int_term(a[2]):
+        k, inner_op, x, m = b[1], a[1], a[2], a[3][1]
+        if op == "floordiv" and inner_op == "floordiv":
+            return arith("floordiv", x, c(m * k))
+        if op == "floordiv" and inner_op == "mod" and m % k == 0:
+            return arith("mod", arith("floordiv", x, c(k)), c(m // k)) if m // k > 1 else c(0)
+        if op == "mod" and inner_op == "mod" and m % k == 0:
+            return arith("mod", x, c(k))
     if op == "floordiv" and is_c(b) and isinstance(b[1], int) and b[1] > 0 and a[0] in ("lin", "len"):
         la = Lin.of(a)
         if all(isinstance(q, int) and q % b[1] == 0 for q in la.coef.values()) and isinstance(la.const, int) and la.const % b[1] == 0:
@@ -634,7 +699,7 @@ def binop(I: Any, op: ast.operator, a: Term, b: Term, st: Any, ctx: Any, node: a
     if name is None:
         raise AnalysisError(f"unsupported operator at {ctx.loc(node)}")
     if name == "mod" and sa is not None:
-        return top("%-formatting not modelled")
+        return percent_format(I, sa, b, st, ctx, node)
     if name == "or" and (_condlike(a) or _condlike(b)):
         from .interp import disj
         return disj([I.truth(a, st), I.truth(b, st)])
@@ -712,6 +777,12 @@ def reverse_value(I: Any, base: Term, st: Any, ctx: Any, node: ast.AST) -> Term:
 def index_value(I: Any, base: Term, idx: Term, st: Any, ctx: Any, node: ast.AST) -> Term:
     where = ctx.loc(node)
     i = as_const_int(idx)
+    if base[0] == "app" and base[1] in ("range", "builtins.range") and 3 <= len(base) <= 5 and all(is_c(x) and isinstance(x[1], int) for x in base[2:]) and isinstance(i, int):
+        r_ = range(*[x[1] for x in base[2:]])
+        if -len(r_) <= i < len(r_):
+            return c(r_[i])
+        st.may_raise("IndexError", c(True), where)
+        return top("range index out of range")
     if base[0] == "mapobj" and len(base) == 4 and base[3] == "list":
         # list built by a comprehension over a symbolic collection: an element of it
         st.may_raise("IndexError", ("emptyindex", base, idx), where)
@@ -726,6 +797,10 @@ def index_value(I: Any, base: Term, idx: Term, st: Any, ctx: Any, node: ast.AST)
                 return base[1][i]
             st.may_raise("IndexError", c(True), where)
             return top("index out of range")
+        if is_int_term(idx) and base[1]:
+            # constant table indexed by a symbolic position: a lookup by position (negative indices excluded by the guard)
+            st.may_raise("IndexError", ("indexrange", idx, c(len(base[1]))), where)
+            return ("lookup", tuple((c(k), v) for k, v in enumerate(base[1])), idx)
     if base[0] == "cdict":
         return dict_lookup(I, list(base[1]), idx, st, where, "const-dict")
     if base[0] == "obj":
@@ -785,6 +860,8 @@ def dict_lookup(I: Any, items: List[Tuple[Term, Term]], key: Term, st: Any, wher
     keys = tuple(k for k, _ in maybe)
     cond = key_missing_cond(I, key2, keys)
     st.may_raise("KeyError", cond, where)
+    if len(maybe) == 1:
+        return maybe[0][1]   # a one-entry table: wherever the lookup succeeds the key is that entry's
     return ("lookup", tuple(maybe), key2)
 
 
@@ -799,7 +876,18 @@ def key_missing_cond(I: Any, key: Term, keys: Tuple[Term, ...]) -> Term:
         alts = {I.canon_cmp_operand(I.lift(a), None) for a in key[3]}
         if alts <= set(keys):
             return c(False)
+    if len(keys) == 1:
+        from .interp import mkcmp
+        return mkcmp("!=", key, keys[0])
     return ("cmp", "not in", key, ("tuple", keys))
+
+
+def ite_pos(cond: Term, a: Term, b: Term) -> Term:
+    """ite with a positive test: ite(x != k, a, b) is written ite(x == k, b, a)."""
+    from .interp import ite, neg
+    if isinstance(cond, tuple) and cond and ((cond[0] == "cmp" and cond[1] in ("!=", "not in", "is not")) or cond[0] == "not"):
+        return ite(neg(cond), b, a)
+    return ite(cond, a, b)
 
 
 def membership(I: Any, x: Term, coll: Term, st: Any, ctx: Any, node: ast.AST) -> Optional[Term]:
@@ -833,6 +921,9 @@ def membership(I: Any, x: Term, coll: Term, st: Any, ctx: Any, node: ast.AST) ->
     missing = key_missing_cond(I, x, tuple(maybe))
     if is_c(missing):
         return c(not missing[1])
+    if len(maybe) == 1:
+        from .interp import mkcmp
+        return mkcmp("==", x, maybe[0])
     return ("cmp", "in", x, ("tuple", tuple(maybe)))
 
 
@@ -1007,6 +1098,48 @@ def str_format(I: Any, tmpl: str, args: List[Term], kwargs: Dict[str, Term], st:
     return merge_strftime(out)
 
 
+def percent_format(I: Any, tmpl: Term, arg: Term, st: Any, ctx: Any, node: ast.AST) -> Term:
+    """printf-style formatting with a literal template: %s %d %x %X with optional 0-flag and width, %%."""
+    if not all(a[0] == "L" for a in tmpl[2]) or tmpl[1] != "s":
+        return top("%-formatting with a symbolic template")
+    text = "".join(a[1] for a in tmpl[2])
+    if arg[0] == "tuple":
+        vals = list(arg[1])
+    else:
+        vals = [arg]
+    out: Term = ("seq", "s", ())
+    pos = 0
+    for m in re.finditer(r"%(?:(%)|(0?)(\d*)([sdxX]))", text):
+        if m.start() > pos:
+            out = T.concat(out, c(text[pos:m.start()]))
+        pos = m.end()
+        if m.group(1):
+            out = T.concat(out, c("%"))
+            continue
+        if not vals:
+            st.may_raise("TypeError", c(True), ctx.loc(node))
+            return top("not enough arguments for format string")
+        v = vals.pop(0)
+        zero, width, conv = m.group(2), m.group(3), m.group(4)
+        if conv == "s":
+            if zero or width:
+                return top("%s with width not modelled")
+            piece = format_value(I, v, "", st, ctx, node)
+        else:
+            piece = format_value(I, v, f"{zero}{width}{conv}", st, ctx, node)
+        out = T.concat(out, piece)
+        if is_top(out):
+            return out
+    if "%" in re.sub(r"%(?:%|0?\d*[sdxX])", "", text):
+        return top("%-formatting directive not modelled")
+    if vals:
+        st.may_raise("TypeError", c(True), ctx.loc(node))
+        return top("not all arguments converted")
+    if pos < len(text):
+        out = T.concat(out, c(text[pos:]))
+    return merge_strftime(out)
+
+
 def pad(s: Term, width: Term, fill: Term, side: str, I: Any = None, st: Any = None, ctx: Any = None, node: Any = None) -> Term:
     w = as_const_int(width)
     f = fill[1] if is_c(fill) and isinstance(fill[1], str) else None
@@ -1055,6 +1188,17 @@ def pad(s: Term, width: Term, fill: Term, side: str, I: Any = None, st: Any = No
             fixed = w
     if fixed is not None:
         return ("seq", s[1], (("padded", side, s[2][0], w, f),))
+    if I is not None and st is not None and s[1] in ("s", "b"):
+        # variable-width text whose length is bounded by the guards of the path (interval reading, no solving)
+        wl = T.seq_width(s)
+        if wl is not None:
+            from .frames import int_bounds_from_guard
+            lo_, hi_ = int_bounds_from_guard(list(st.pc), wl.term())
+            if hi_ is not None and hi_ <= w:
+                padatoms = (("rep", f, (Lin.of(c(w)) - wl).term()),)
+                return T.seq(s[1], s[2] + padatoms if side == "ljust" else padatoms + s[2])
+            if lo_ is not None and lo_ >= w:
+                return s
     return ("seq", s[1], (("txt", ("app", side, s, c(w), c(f))),))
 
 
@@ -1136,10 +1280,9 @@ def call_method(I: Any, recv: Term, name: str, args: List[Term], kwargs: Dict[st
                 default = args[1] if len(args) > 1 else c(None)
                 if not conds:
                     return v
-                from .interp import ite
                 if is_c(conds[0]) and conds[0][1] is True:
                     return default
-                return ite(conds[0], default, v)
+                return ite_pos(conds[0], default, v)
             if name == "keys":
                 return ("tuple", tuple(k for k, _ in ho.items))
             if name == "values":
@@ -1188,6 +1331,9 @@ def call_method(I: Any, recv: Term, name: str, args: List[Term], kwargs: Dict[st
                 return int_to_bytes(I, recv, args, kwargs, st, ctx, node)
         if recv[0] == "item" and name == "get":
             return ("item?", recv, args[0], args[1] if len(args) > 1 else c(None))
+        if (name == "strftime" and recv[0] == "app" and recv[1] == "datetime.datetime.fromtimestamp" and len(recv) == 3 and len(args) == 1 and not kwargs):
+            # naive datetime.fromtimestamp(n) is the LOCAL broken-down time of n: the same text as time.strftime(fmt, time.localtime(n))
+            return merge_strftime(text_of(app("time.strftime", [args[0], app("time.localtime", [recv[2]])])))
         r = app("." + name, [recv] + args, kwargs)
         if name in ("strftime", "isoformat", "decode", "rstrip", "strip", "upper", "lower", "hex", "format", "group"):
             return text_of(r)
@@ -1202,6 +1348,8 @@ def call_method(I: Any, recv: Term, name: str, args: List[Term], kwargs: Dict[st
         return call_ext(I, f"{recv[1]}.{name}", args, kwargs, st, ctx, node, awaited)
     if recv[0] == "exc":
         return app("." + name, [recv] + args)
+    if recv[0] == "structobj" and name == "pack" and not kwargs:
+        return struct_pack(I, [recv[1]] + list(args), st, ctx, node)
     if recv[0] in ("cdict",):
         if name == "get":
             p0 = len(st.pending)
@@ -1214,7 +1362,7 @@ def call_method(I: Any, recv: Term, name: str, args: List[Term], kwargs: Dict[st
                 return v
             if is_c(conds[0]) and conds[0][1] is True:
                 return default
-            return ite(conds[0], default, v)
+            return ite_pos(conds[0], default, v)
         if name == "keys":
             return ("tuple", tuple(k for k, _ in recv[1]))
         if name == "values":
